@@ -688,6 +688,7 @@ def q_bounds(ctx, p):
     if not sel:
         return dict(status="inconclusive", reason="no function matched")
     witnesses, details, functions = [], [], []
+    und_sites = []
     obligations = discharged = undecided = 0
     msg_re = re.compile(p.get("msg", r"index out of bounds"))
     for fn in sel:
@@ -713,6 +714,7 @@ def q_bounds(ctx, p):
             c = enc.operand(st, opnd)
             if c is None or not z3.is_bool(c):
                 undecided += 1
+                und_sites.append("%s bb%d %s" % (short_fn(fn.name), b, re.sub(r"\s+", " ", t.get("msg", ""))[:34]))
                 continue
             if p.get("overflow"):
                 # overflow flags are decided only where the arithmetic was modelled, and never for
@@ -723,8 +725,12 @@ def q_bounds(ctx, p):
                 if is_flag and ("place:" + mk.group(1)) not in enc.modelled_flags:
                     undecided += 1
                     continue
-                if "havoc_" in str(c):
+                if "havoc_" in str(c) or "unm_" in str(c):
                     undecided += 1
+                    continue
+                if p.get("inputs_only") and not provenance_ok(enc, c, True):
+                    undecided += 1
+                    und_sites.append("%s bb%d %s [operands not built from inputs]" % (short_fn(fn.name), b, re.sub(r"\s+", " ", t.get("msg", ""))[:34]))
                     continue
             if neg:
                 c = z3.Not(c)
@@ -740,8 +746,116 @@ def q_bounds(ctx, p):
         if n_here:
             functions.append(fn.name)
     details.append("%d functions with bounds checks; %d checks decided by the solver, %d undecided (index or length not tracked)" % (len(functions), obligations, undecided))
+    if und_sites:
+        details.append("undecided sites (first 60): " + "; ".join(und_sites[:60]))
     if obligations == 0:
         return dict(status="inconclusive", reason="vacuity guard: no bounds check could be decided", details=details)
+    uniq = {}
+    for w in witnesses:
+        uniq.setdefault(w["key"], w)
+    return dict(status="failed" if uniq else "held", witnesses=list(uniq.values()), obligations=obligations,
+                discharged=discharged, functions=functions[:40], details=details)
+
+
+def free_names(t):
+    out, seen, stack = set(), set(), [t]
+    while stack:
+        x = stack.pop()
+        if x.get_id() in seen:
+            continue
+        seen.add(x.get_id())
+        if z3.is_const(x) and x.decl().kind() == z3.Z3_OP_UNINTERPRETED:
+            out.add(x.decl().name())
+        stack.extend(x.children())
+    return out
+
+
+def provenance_ok(enc, term, need_input):
+    """decided only where the term is built from INPUTS (integer parameters, fields of by-value
+    parameters, results of str::parse) plus lengths of existing collections and constants"""
+    names = free_names(term)
+    n_in = 0
+    for n in names:
+        if re.search(r":arg_\d+!\d+$", n) or re.search(r":place_(parsed|argval)!\d+$", n):
+            n_in += 1
+        elif n.startswith("len") or is_len_name(enc, n):
+            pass
+        else:
+            return False
+    return n_in > 0 or not need_input
+
+
+def is_len_name(enc, n):
+    return any(z3.is_const(v) and v.decl().name() == n for v in enc.len_terms)
+
+
+def q_alloc_bound(ctx, p):
+    """Reservation sizes: at every call matching p['call'] (with_capacity / reserve / from_elem /
+    resize ...) in the selected functions whose size argument is a modelled integer term, no
+    execution exists on which the argument exceeds p['limit'] - given that every len()/count()
+    result and slice length is at most p['len_max'] (collections that exist in memory) while numbers
+    parsed from the request and integer parameters are arbitrary values of their types."""
+    funcs = ctx.funcs
+    pats = [re.compile(x) for x in p["fns"]]
+    skip = [re.compile(x) for x in p.get("skip", [])]
+    sel = [f for n, f in funcs.items() if any(x.search(n) for x in pats) and not any(x.search(n) for x in skip) and not n.startswith("const ")]
+    if not sel:
+        return dict(status="inconclusive", reason="no function matched")
+    call_re = re.compile(p.get("call", r"::(with_capacity|reserve|reserve_exact|from_elem|resize)$"))
+    limit, len_max = int(p.get("limit", 2**32)), int(p.get("len_max", 2**32))
+    witnesses, details, functions = [], [], []
+    obligations = discharged = undecided = 0
+    for fn in sel:
+        sites = [b for b, blk in fn.blocks.items() if blk.term and blk.term["kind"] == "call" and call_re.search(norm_callee(blk.term["callee"]))]
+        if not sites:
+            continue
+        try:
+            gl = sym.Glob()
+            gl.min_len = dict(p.get("min_len") or {})
+            enc = sym.Enc(fn, funcs, gl)
+        except Exception as ex:
+            details.append("%s: not encoded (%r)" % (short_fn(fn.name), ex))
+            continue
+        s = z3.Solver()
+        s.add(enc.extra)
+        # lengths of existing collections are bounded
+        for c in enc.len_terms:
+            s.add(c <= len_max)
+        functions.append(fn.name)
+        for b in sites:
+            if b not in enc.reach:
+                continue
+            t = enc.blocks[b].term
+            st = enc.out_state[b]
+            # size argument: the last integer-typed argument (with_capacity(n); reserve(&mut v, n); from_elem(x, n); resize(&mut v, n, x))
+            arg = None
+            cal = norm_callee(t["callee"])
+            idx = {"with_capacity": 0, "reserve": 1, "reserve_exact": 1, "from_elem": 1, "resize": 1}.get(cal.split("::")[-1], None)
+            if idx is not None and idx < len(t["args"]):
+                arg = enc.operand(st, t["args"][idx])
+            if arg is None or not z3.is_int(arg):
+                undecided += 1
+                continue
+            # decided only where the size is built (through modelled arithmetic) from integer
+            # PARAMETERS of the function, lengths of existing collections and constants; sizes that
+            # depend on fields of existing state, results of unmodelled calls/operators or
+            # loop-carried values are undecided, never witnesses
+            if not provenance_ok(enc, arg, False):
+                undecided += 1
+                continue
+            obligations += 1
+            r = ctx.check(s, enc.reach[b], arg > limit)
+            if r == z3.unsat:
+                discharged += 1
+            elif r == z3.sat:
+                witnesses.append(dict(key="%s: unbounded reservation %s" % (short_fn(fn.name), cal.split("<")[0] + "::" + cal.split("::")[-1]),
+                                      what="%s bb%d: %s can be called with a size above %d although every existing collection holds at most %d elements (size argument %s)" % (
+                                          short_fn(fn.name), b, cal[:60], limit, len_max, t["args"][idx])))
+            else:
+                undecided += 1
+    details.append("%d functions with reservation calls; %d sites decided, %d undecided (size not a modelled term or loop-carried)" % (len(functions), obligations, undecided))
+    if obligations == 0:
+        return dict(status="inconclusive", reason="vacuity guard: no reservation site could be decided", details=details)
     uniq = {}
     for w in witnesses:
         uniq.setdefault(w["key"], w)
@@ -819,6 +933,7 @@ def q_must_call(ctx, p):
 KINDS = {
     "must_call": q_must_call,
     "bounds": q_bounds,
+    "alloc_bound": q_alloc_bound,
     "guarded": q_guarded,
     "no_error_after": q_no_error_after,
     "arg_flow": q_arg_flow,
